@@ -28,6 +28,7 @@ def fortran_modules(od):
             else:
                 lines.append(ln)
         spec, bindc, gen, tbgen = [], [], {}, {}
+        tb_by_type, cur_type = {}, None
         cur_if = None       # None | "" (unnamed) | name
         in_contains = False
         for ln in lines:
@@ -48,10 +49,20 @@ def fortran_modules(od):
             if low == "contains" and not ln.startswith("    "):
                 in_contains = True
                 continue
+            ty = re.match(r"^type\s+(\w+)\s*$", low) or re.match(r"^type\s*,[^:]*::\s*(\w+)\s*$", low)
+            if ty:
+                cur_type = ty.group(1)
+                continue
+            if low.startswith("end type"):
+                cur_type = None
+                continue
             tm = re.match(r"^generic\s*::\s*(\w+)\s*=>\s*(.*)$", low)
             if tm:
+                names_ = [x.strip() for x in tm.group(2).rstrip("&").split(",") if x.strip()]
                 tbgen.setdefault(tm.group(1), [])
-                tbgen[tm.group(1)] += [x.strip() for x in tm.group(2).rstrip("&").split(",") if x.strip()]
+                tbgen[tm.group(1)] += names_
+                tb_by_type.setdefault(cur_type or "", {}).setdefault(tm.group(1), [])
+                tb_by_type[cur_type or ""][tm.group(1)] += names_
                 continue
             pm = re.match(r"^(?:(?:pure|elemental|recursive)\s+)*(?:function|subroutine)\s+(\w+)", low)
             if cur_if == "" and pm:
@@ -62,7 +73,7 @@ def fortran_modules(od):
                     gen[cur_if] += [x.strip() for x in mm.group(1).split(",")]
             elif in_contains and cur_if is None and pm and re.match(r"^    \S", ln):
                 spec.append(pm.group(1))
-        out.append({"file": os.path.basename(f), "specifics": spec, "bindc": bindc, "generics": gen, "tbgenerics": tbgen})
+        out.append({"file": os.path.basename(f), "specifics": spec, "bindc": bindc, "generics": gen, "tbgenerics": tbgen, "tbgenerics_by_type": tb_by_type})
     return out
 
 
@@ -95,7 +106,9 @@ def nodes(jpath):
                 return
             sc = scope
             if "name" in o and ("functions" in o or "classes" in o):
-                sc = scope + "/" + str(o.get("name"))
+                # (an instantiation of a class template keeps the template's name; its typemap name tells them apart)
+                nm = o.get("typemap_name") if o.get("template_arguments") and o.get("typemap_name") else o.get("name")
+                sc = scope + "/" + str(nm)
             for k, v in o.items():
                 walk(v, sc)
         elif isinstance(o, list):
